@@ -123,6 +123,15 @@ var osAllow = map[string]string{
 	"os-call|github.com/reedom/convergen/pkg/parser.NewParser$1|os.SameFile":               "pure",
 	"os-call|github.com/reedom/convergen/pkg/runner.Run|os.OpenFile":                       "log file, C15Run",
 	"os-call|(*github.com/reedom/convergen/pkg/generator.Generator).Generate|os.WriteFile": "the output write, C15Run/C18Generate",
+	"os-call|github.com/reedom/convergen/pkg/generator.replaceFile|os.CreateTemp":          "the temporary file next to the output, C15Run/C18Generate (temporary-file-next-to-the-target, renamed-or-removed)",
+	"os-call|github.com/reedom/convergen/pkg/generator.replaceFile|(*os.File).Write":       "the one write of the result into the temporary file, C15Run/C18Generate",
+	"os-call|github.com/reedom/convergen/pkg/generator.replaceFile|(*os.File).Close":       "C15Run/C18Generate",
+	"os-call|github.com/reedom/convergen/pkg/generator.replaceFile|(*os.File).Name":        "pure",
+	"os-call|github.com/reedom/convergen/pkg/generator.replaceFile|os.Chmod":               "mode of the temporary file before it takes the output's place, C15Run/C18Generate (write-mode)",
+	"os-call|github.com/reedom/convergen/pkg/generator.replaceFile|os.Rename":              "the moment the output path is replaced, C15Run/C18Generate",
+	"os-call|github.com/reedom/convergen/pkg/generator.replaceFile|os.Remove":              "removal of the temporary file after a failure, C15Run/C18Generate",
+	"os-call|github.com/reedom/convergen/pkg/generator.replaceFile|path/filepath.Dir":      "pure path computation",
+	"os-call|github.com/reedom/convergen/pkg/generator.replaceFile|path/filepath.Base":     "pure path computation",
 	"os-call|github.com/reedom/convergen.main|os.Exit":                                     "exit status",
 	"os-call|github.com/reedom/convergen/pkg/parser.NewParser|path/filepath.Abs":           "pure path computation for the loader's directory and query (reads the working directory, writes nothing), C12LoaderHook load.call",
 	"os-call|github.com/reedom/convergen/pkg/parser.NewParser|path/filepath.Dir":           "pure path computation",
